@@ -1118,6 +1118,24 @@ def native_method(I, recv, name, args, kw):
                 s.items, s.n, s._at = new.items, new.n, new._at
                 return v
             if name == 'copy': return s.copy()
+            if name == 'remove' and s.items is not None:
+                for j, x in enumerate(list(s.items)):
+                    if st.decide(zbool(V._cmp('==', x, args[0])) if (V.is_sym(x) or V.is_sym(args[0])) else z3.BoolVal(x == args[0])):
+                        new = s.items[:j] + s.items[j + 1:]
+                        s.items, s.n = new, None
+                        return None
+                raise Raised('ValueError')
+            if name == 'remove' and s.items is None and s.elem == 'int':
+                # symbolic-length list: ValueError unless the value occurs; the list afterwards is over-approximated by an arbitrary
+                # list one element shorter (sound for proofs; a counter-model that depends on its content will not replay)
+                k = z3.Int(st.fresh_name('q'))
+                n = zint(s.n)
+                if not st.decide(z3.Exists([k], z3.And(k >= 0, k < n, zint(s.at(mk(k))) == zint(args[0])))):
+                    raise Raised('ValueError')
+                new = Seq.fresh('list', 'after_remove', elem='int', inp=False)
+                st.assume(zint(new.n) == n - 1)
+                s.items, s.n, s._at = None, new.n, new._at
+                return None
             raise Unsupported('list(sym).%s' % name)
         if name == 'find':
             return seq_find(I, s, to_seq(args[0]), args[1] if len(args) > 1 else 0)
